@@ -47,7 +47,7 @@ INSIDE_TOL = 2e-6     # grid corners may be this far (relative to the extent, + 
 ASSUMPTIONS = [
     'source polygons/faces are valid (certified like C05: simple loops, holes strictly inside, '
     'gaps >= 1e-3, corners >= 1 degree from 0/180), 3..40 vertices, 0..3 holes, random planes',
-    'cell sizes x_dim, y_dim in [extent/40, 2*extent]; when W/x_dim is within 1e-12 relative of '
+    'cell sizes x_dim, y_dim in [extent/40, 2*extent]; when W/x_dim is within 1e-9 relative of '
     'an integer both neighbouring cell counts are accepted',
     'a grid corner counts as inside the source shape when it is inside or at most '
     '2e-6*extent + 2e-7 away from it (the library tests against the polygon scaled by 1.000001 '
@@ -152,7 +152,9 @@ def need(cond, clause, msg):
 def adjusted(w, dim):
     """Candidate (count, adjusted size) pairs for an extent w (Fraction) and requested dim."""
     r = w / F(dim)
-    eps = F(1, 10 ** 12)
+    # (the library measures the extent in plane coordinates: rounding of order 1e-16 x the
+    # coordinate magnitude over the extent; both neighbouring counts are accepted within 1e-9)
+    eps = F(1, 10 ** 9)
     out = []
     for rr in (r * (1 - eps), r, r * (1 + eps)):
         n = max(1, int(rr))          # int() floors a positive Fraction
